@@ -339,10 +339,15 @@ def measure(sc, stats=False):
     return {k: v for k, v in out.items()}
 
 
-def run_sequence(names, reps, policy=None, stats=False):
+def run_sequence(names, reps, policy=None, stats=False, transport=None):
     """Fresh node with the standing connection; each named cycle repeated `reps` times in turn; returns the measure.
     policy: thread kind that runs only when nothing else can (the kernel's second scheduling policy), or None."""
-    sc = scenario.Scenario(CFG, max_socks=1, start_plan=["refused"], app_timeout=2)
+    cfg_ = CFG
+    if transport:
+        import copy as _copy
+        cfg_ = _copy.deepcopy(CFG)
+        cfg_["node"]["transport"] = transport       # "sctp": the node's SCTP listen / accept / dial / send / close branches
+    sc = scenario.Scenario(cfg_, max_socks=1, start_plan=["refused"], app_timeout=2)
     try:
         nw = sc.start()
         nw.world.low_kind = policy
@@ -624,10 +629,11 @@ def work(args):
     names, lo, hi = args[:3]
     policy = args[3] if len(args) > 3 else None
     stats = args[4] if len(args) > 4 else False
-    m_lo, f_lo = run_sequence(names, lo, policy, stats)
-    m_hi, f_hi = run_sequence(names, hi, policy, stats)
+    transport = args[5] if len(args) > 5 else None
+    m_lo, f_lo = run_sequence(names, lo, policy, stats, transport)
+    m_hi, f_hi = run_sequence(names, hi, policy, stats, transport)
     grown = {k: (m_lo.get(k, 0), m_hi.get(k, 0)) for k in set(m_lo) | set(m_hi) if m_lo.get(k, 0) != m_hi.get(k, 0)}
-    return names, lo, hi, grown, f_lo + f_hi, sum(m_hi.values()), policy
+    return names, lo, hi, grown, f_lo + f_hi, sum(m_hi.values()), (policy, transport) if transport else policy
 
 
 def run(tier):
@@ -639,6 +645,8 @@ def run(tier):
     # every cycle also under the second scheduling policy: the I/O thread runs only when no other thread can
     jobs += [((n,), lo, hi, "_handle_connections") for n in names]
     jobs += [((n,), 1, 3, pol) for n in EXTRA_CYCLES for pol in (None, "_handle_connections")]
+    # every cycle on a node that listens on SCTP and whose peers are SCTP peers
+    jobs += [((n,), 3, 12, None, False, "sctp") for n in names]
     # hours of sparse traffic (a watchdog exchange every 4 s, 27 and 53 minutes): the statistics records have filled their fixed-size
     # windows long before the shorter run ends, so their number is the same after both
     jobs += [(("DWR-from-node",), 400, 800, None, True), (("DWR-from-peer", "DWR-from-node"), 300, 600, None, True)]
@@ -666,8 +674,11 @@ def run(tier):
                 key = f"growth:{k}:per-combination:{'+'.join(names_)}"
             else:
                 key = f"growth:{k}:per:{names_[0]}"
-            rep.add(Violation(key, f"sequence {'+'.join(names_)}{' (I/O thread scheduled last)' if pol_ else ''}: {k} = {a} after {lo_} repetitions, {b} after {hi_}",
-                              {"cycles": list(names_), "lo": lo_, "hi": hi_, "policy": pol_}))
+            tr_ = None
+            if isinstance(pol_, tuple):
+                pol_, tr_ = pol_         # (the key does not name the transport: the same growth over TCP and SCTP is one finding)
+            rep.add(Violation(key, f"sequence {'+'.join(names_)}{' (I/O thread scheduled last)' if pol_ else ''}{' over ' + tr_ if tr_ else ''}: {k} = {a} after {lo_} repetitions, {b} after {hi_}",
+                              {"cycles": list(names_), "lo": lo_, "hi": hi_, "policy": pol_, "transport": tr_}))
         for f in fails:
             rep.notes.append(f"simulated thread failed during {names_}: {f} (judged by C14, not here)")
     import functools
@@ -718,5 +729,5 @@ def replay(case):
         from .. import scheddfs
         obs, ch = scheddfs.replay_choices(functools.partial(sched_execute, case["sched"]), case["choices"])
         return [Violation(k, d) for k, d in sched_check(obs)]
-    names, lo, hi, grown, fails, size, pol = work((tuple(case["cycles"]), case.get("lo", 2), case.get("hi", 5), case.get("policy")))
+    names, lo, hi, grown, fails, size, pol = work((tuple(case["cycles"]), case.get("lo", 2), case.get("hi", 5), case.get("policy"), False, case.get("transport")))
     return [Violation(f"growth:{k}:per:{names[-1]}", f"{a} -> {b}") for k, (a, b) in grown.items()]
